@@ -80,7 +80,9 @@ def merge_flags(fl, in_flags, step_id):
     indexed = fl.indexed
     srcs = tuple(sorted(set(fl.srcs).union(*[set(f.srcs) for f in in_flags])))
     rowset = fl.rowset or step_id
-    return replace(fl, pandas_ok=pandas_ok, ordered=ordered, indexed=indexed, srcs=srcs, rowset=rowset)
+    layout = fl.layout  # ops decide (they may reset it: head/reductions yield one partition)
+    defined = fl.defined and all(f.defined for f in in_flags)
+    return replace(fl, pandas_ok=pandas_ok, ordered=ordered, indexed=indexed, srcs=srcs, rowset=rowset, layout=layout, defined=defined)
 
 
 def op_histogram(program):
